@@ -252,10 +252,11 @@ def ppPostProcessing (ast : Node) (parent : Option Node) (txt : Txt) : Except PE
 def c (ps : List Txt) (i : Nat) : Txt := ps.getD (i - 1) []      -- tempParam["c<i>"], "" if missing
 
 /-- the recursive function `visit` of PrettyPrint; fuel-indexed (structural), fuel = a bound on the depth of the tree -/
-def visitF : Nat → Option Node → Option Node → Except PErr Txt
+def visitFQ (q : Txt → Txt) : Nat → Option Node → Option Node → Except PErr Txt
   | 0, _, _ => throw PErr.panic     -- fuel exhausted (never with `visit`'s fuel on a tree of the driver)
   | fuel+1, ast?, parent => do
-  let visit := visitF fuel
+  let visit := visitFQ q fuel
+  let quote := q
   let ast ← (match ast? with | some a => pure a | none => throw PErr.nilNode)
   let n := ast.children.length
   -- children first
@@ -331,8 +332,22 @@ def visitF : Nat → Option Node → Option Node → Except PErr Txt
         | .inr k => pure (acc ++ c ps k)) []
       post txt
 
+/-- the recursive function `visit` of PrettyPrint with strconv.Quote for string tokens -/
+def visitF : Nat → Option Node → Option Node → Except PErr Txt := visitFQ quote
+
 /-- `visit` with a fuel far above the depth of any tree the driver sees -/
 def visit (ast? : Option Node) (parent : Option Node) : Except PErr Txt := visitF 100000 ast? parent
+
+/-- canonical spelling of a string literal for the comparison with Go: the hex digits of the VALUE between quotes
+    (which escapes strconv.Quote chooses is not constrained by the property; `quote_lex_roundtrip` says that the
+    literal written by `quote` is read back as exactly this value) -/
+def quoteCanon (v : Txt) : Txt :=
+  [34] ++ (if v.isEmpty then [45] else v.flatMap hex2) ++ [34]
+
+/-- PrettyPrint with canonical string literals -/
+def prettyPrintCanon (ast : Option Node) : Except PErr Txt := do
+  let r ← visitFQ quoteCanon 100000 ast none
+  pure (trimSpace r)
 
 def prettyPrint (ast : Option Node) : Except PErr Txt := do
   let r ← visit ast none
